@@ -13,6 +13,7 @@ require (
 	github.com/ProtonMail/go-crypto v1.0.0
 	github.com/go-git/go-billy/v5 v5.5.0
 	github.com/go-git/go-git/v5 v5.12.0
+	github.com/gorilla/mux v1.8.1
 )
 
 require (
